@@ -14,7 +14,7 @@ import os
 
 from sim import devices
 from sim.canon import Log, dec_table, enc, canon_rows, canon_row
-from sim.core import outcome, ddmin_lists
+from sim.core import outcome, ddmin_lists, draw_config
 from sim.devices import SimStore, SimCompressedSource
 from sim.gen import FIELDS
 from sim.loader import load_petl
@@ -149,6 +149,7 @@ def gen_case(rng, tier, g):
         t = _table(rng, fmt, maxrows, nf=nf, hdr=hdr)
         hist.append([op, t, wh])
     return {'prop': PROP, 'fmt': fmt, 'target': target, 'args': args,
+            'config': draw_config(rng, 0.1),
             'history': hist,
             'read_header': rng.random() < 0.25 and fmt in ('csv', 'tsv'),
             'frag': [rng.choice([1, 2, 3, 5, 7, 64, 8192])
